@@ -124,6 +124,8 @@ def parse(case_line):
     if t and t[0].startswith('@'):
         tag = t[0][1:]
         t = t[1:]
+    if t[0] == 'shutdown':
+        return {'tag': tag, 'enum': False, 'fn': 'shutdown', 'route': 'ptr', 'mode': '_', 'sub': '_', 'units': '00', 'extra': []}
     if t[0] == 'ENUM':
         fn, _, route = t[2].partition('.')
         return {'tag': tag, 'enum': True, 'domain': t[1], 'fn': fn, 'route': route or 'ptr', 'mode': t[3], 'sub': t[4],
@@ -167,6 +169,8 @@ class UtfCheck(vlib.Check):
         return {'': []}
 
     def allowed(self, case, impl, spec):
+        if case.split()[-1] == 'shutdown':
+            return impl == spec
         if spec == 'ANYOK':
             return ok_shape(impl) or (self.any_allows_throw and impl == 'THROW unicode_error')
         if spec == 'ANY':
@@ -211,6 +215,8 @@ class UtfCheck(vlib.Check):
         return p['units'] not in ('.', '-')
 
     def shrink_candidates(self, case):
+        if case.split()[-1] == 'shutdown':
+            return
         p = parse(case)
         pre = ('@%s ' % p['tag']) if p['tag'] else ''
         if p['enum']:
